@@ -25,7 +25,7 @@ LOOKALIKE = re.compile(r'[\w-]+\.\w+[:=-]\d+[:=-]')
 
 
 def plan(ctx):
-    n = ctx.n(2500, 50000)
+    n = ctx.n(7000, 100000)
     return [('case', engine.stable_hash((ctx.seed, 'c16', i))) for i in range(n)]
 
 
